@@ -52,7 +52,16 @@ Proof. unfold is_host_proc. rewrite strip_prefix_app. reflexivity. Qed.
 
 Definition QT {A} : A -> Prop := fun _ => True.
 Definition Qfd {E} : result Z E -> Prop := okR (fun n => real_fd n = true).
-Notation okd := (okp Pdn).
+(* Panic sites of /repo that the model can reach (C10): 1 = no thread-self
+   candidate works, 5 = Rc::try_unwrap (believed unreachable; not proved), and
+   -- depending on what T0 reads in the source -- 2 = try_from_fd's fstat
+   expect(), 6 = the unreachable!() of openat2::resolve_partial. *)
+Definition allowed_panic (s : N) : Prop :=
+  s = PANIC_THREAD_SELF \/ s = PANIC_RC_UNWRAP \/
+  (TRY_FROM_FD_FSTAT_PANICS = true /\ s = PANIC_FSTAT_PROC) \/
+  (PARTIAL_UNREACHABLE_PANICS = true /\ s = PANIC_PARTIAL_UNREACHABLE).
+Notation okd := (okp Pdn allowed_panic).
+Notation okf := (okp Pd allowed_panic).
 
 Lemma as_fd_real r n : as_fd r = Ok n -> real_fd n = true.
 Proof.
@@ -69,7 +78,7 @@ Proof.
   revert fd. induction fz as [|f IH]; intro fd; cbn [frozen]; [constructor|].
   constructor; [split; reflexivity|]. intro rt.
   generalize (thread_self_cands (as_num rt)). intro cands.
-  induction cands as [|c rest IHc]; [constructor|].
+  induction cands as [|c rest IHc]; [constructor; left; reflexivity|].
   constructor.
   - split; [|reflexivity]. cbn [disc_b]. change (Z.eqb AT_FDCWD AT_FDCWD) with true. cbn iota.
     rewrite host_proc_ok. reflexivity.
@@ -101,7 +110,7 @@ Proof. apply has_lor_l, has_lor_r. reflexivity. Qed.
 (* openat_follow: disciplined except for O_NOFOLLOW *)
 Lemma w_openat_follow_ok fz fd n fl m :
   real_fd fd = true -> single n = true ->
-  okp Pd Qfd (w_openat_follow fz fd n fl m).
+  okf Qfd (w_openat_follow fz fd n fl m).
 Proof.
   intros Hfd Hn. unfold w_openat_follow. rewrite (real_fd_valid _ Hfd). cbn [negb].
   unfold rustix_path. destruct (has_nul n).
@@ -356,11 +365,24 @@ Proof.
   apply orb_true_iff. right. apply andb_true_iff. split; apply has_lor_l; reflexivity.
 Qed.
 
+Lemma openat2_retry_ok n root p fl rs :
+  real_fd root = true -> has rs RESOLVE_NO_MAGICLINKS = true ->
+  (has rs RESOLVE_IN_ROOT || (has rs RESOLVE_BENEATH && has rs RESOLVE_NO_XDEV)) = true ->
+  okd Qfd (openat2_retry fz n root p fl rs).
+Proof.
+  intros Hr Hm Hb. induction n as [|m IH]; cbn [openat2_retry]; [constructor; exact I|].
+  eapply okp_bind; [apply w_openat2_ok; assumption|]. intros r Hfd.
+  destruct r as [fd|e]; [constructor; exact Hfd|].
+  destruct (N.eqb e EAGAIN); [exact IH|constructor; exact I].
+Qed.
+
 Lemma openat2_resolve_ok root p fl rf :
   real_fd root = true -> okd Qfd (openat2_resolve fz cfg root p fl rf).
 Proof.
   intro Hr. unfold openat2_resolve, os. destruct cfg; cbn [negb]; [|constructor; exact I].
-  apply okp_map_err. apply w_openat2_ok; [assumption|apply procfs_mask_magic|apply procfs_mask_beneath].
+  destruct (N.eqb PROCFS_OPENAT2_RETRIES 0).
+  - apply okp_map_err. apply w_openat2_ok; [assumption|apply procfs_mask_magic|apply procfs_mask_beneath].
+  - apply openat2_retry_ok; [assumption|apply procfs_mask_magic|apply procfs_mask_beneath].
 Qed.
 
 Definition singles (cs : list bytes) : Prop := Forall (fun c => single c = true) cs.
@@ -467,7 +489,7 @@ Proof.
   constructor; [split; reflexivity|]. intro rt.
   pose proof (task_cand_ok) as Hc. specialize (fun c => Hc c (as_num rt)).
   revert Hc. generalize (thread_self_cands (as_num rt)). intros cands Hc.
-  induction cands as [|c rest IH]; [constructor|].
+  induction cands as [|c rest IH]; [constructor; left; reflexivity|].
   eapply okp_bind; [apply w_fstatat_ok; [assumption|apply Hc; left; reflexivity]|]. intros r _.
   destruct r; [constructor; exact I|]. apply IH. intros c' Hin. apply Hc. right. exact Hin.
 Qed.
@@ -480,7 +502,9 @@ Proof.
   eapply okp_bind; [apply verify_is_procfs_ok; assumption|]. intros r _.
   destruct r as [_u|e]; [|eapply okp_bind; [apply close_ok; assumption|]; intros _ _; constructor; exact I].
   eapply okp_bind; [apply w_fstatat_ok; [assumption|reflexivity]|]. intros r _.
-  destruct r as [meta|e]; [|constructor].
+  destruct r as [meta|e].
+  2: { destruct TRY_FROM_FD_FSTAT_PANICS eqn:Efl; [constructor; right; right; left; split; [exact Efl|reflexivity]|].
+       eapply okp_bind; [apply close_ok; assumption|]; intros _ _; constructor; exact I. }
   destruct (negb _); [eapply okp_bind; [apply close_ok; assumption|]; intros _ _; constructor; exact I|].
   eapply okp_bind; [apply fetch_mnt_id_ok; [assumption|reflexivity]|]. intros r _.
   destruct r as [mnt|e]; [|eapply okp_bind; [apply close_ok; assumption|]; intros _ _; constructor; exact I].
@@ -587,16 +611,17 @@ Proof. intros [H _]; exact H. Qed.
 
 (* open_follow: everything is disciplined; exactly one call may lack O_NOFOLLOW *)
 Lemma popen_follow_ok fuel h base sub fl :
-  real_fd (ph_fd h) = true -> okp Pd Qfd (popen_follow fz cfg fuel h base sub fl).
+  real_fd (ph_fd h) = true -> okf Qfd (popen_follow fz cfg fuel h base sub fl).
 Proof.
   intro Hh. unfold popen_follow.
   destruct (path_strip_trailing_slash sub) as [sub' ts].
   eapply okp_bind; [eapply okp_weaken_P; [apply Pdn_Pd|]; apply preadlink_ok; assumption|]. intros rl _.
   destruct rl as [_b|e]; [|eapply okp_weaken_P; [apply Pdn_Pd|]; apply popen_ok; assumption].
-  destruct (path_split sub') as [[[parent [trailing|]]|e]|] eqn:Hsp; try (constructor; exact I).
+  destruct (path_split sub') as [[[parent [trailing|]]|e]|] eqn:Hsp; try (constructor; exact I);
+    [|exfalso; exact (path_split_total _ Hsp)].
   eapply okp_bindR; [eapply okp_weaken_P; [apply Pdn_Pd|]; apply popen_ok; assumption| |intro; exact I].
   intros pfd Hp.
-  assert (Hcl : forall e, okp Pd (@Qfd ekind) (close pfd ;;; Ret (Err e))).
+  assert (Hcl : forall e, okf (@Qfd ekind) (close pfd ;;; Ret (Err e))).
   { intro e'. eapply okp_weaken_P; [apply Pdn_Pd|].
     eapply okp_bind; [apply close_ok; assumption|]. intros _ _. constructor; exact I. }
   assert (Htr : single trailing = true).
@@ -612,7 +637,7 @@ Proof.
 Qed.
 
 Lemma reopen_ok fuel gh fd fl :
-  real_fd (ph_fd gh) = true -> real_fd fd = true -> okp Pd Qfd (reopen fz cfg fuel gh fd fl).
+  real_fd (ph_fd gh) = true -> real_fd fd = true -> okf Qfd (reopen fz cfg fuel gh fd fl).
 Proof.
   intros Hg Hfd. unfold reopen, os.
   eapply okp_bindR; [eapply okp_weaken_P; [apply Pdn_Pd|]; apply okp_map_err, w_fstatat_ok; [assumption|reflexivity]
